@@ -256,86 +256,5 @@ theorem copyOK_of_prev {data : ByteArray} {m cm curIx maxLength maxBackward prev
     CopyOK data m cm curIx maxLength maxBackward { o with len := len, distance := wsub curIx prev, score := score } :=
   ⟨Nat.pos_of_ne_zero h0, Nat.le_of_not_gt hmb, hlen, hx, prev, rfl, hag⟩
 
-theorem Adv.cacheStep_inv {lbs : Nat} {data : ByteArray} {mask curIx cm maxLength maxBackward : Nat}
-    (hc : curIx < U64) {cache : List Int} (i : Nat) (s s' : Adv.LoopSt)
-    (hI : Adv.Inv data mask cm curIx maxLength maxBackward s)
-    (h : Adv.cacheStep lbs data mask curIx cm maxLength maxBackward cache i s = some s') :
-    Adv.Inv data mask cm curIx maxLength maxBackward s' := by
-  unfold Adv.cacheStep at h
-  cases hci : cache[i]? with
-  | none => simp [hci] at h
-  | some ci =>
-    simp only [hci] at h
-    split at h
-    · injection h with h; subst h; exact hI
-    · rename_i hcond
-      cases hg : Adv.guard data mask cm (wsub curIx (i32ToUsize ci) &&& mask) s.bestLen with
-      | none => simp [hg] at h
-      | some g =>
-        cases g with
-        | true => simp only [hg] at h; injection h with h; subst h; exact hI
-        | false =>
-          simp only [hg] at h
-          cases hf : findMatchLengthWithLimit data (wsub curIx (i32ToUsize ci) &&& mask) cm maxLength with
-          | none => simp [hf] at h
-          | some len =>
-            simp only [hf] at h
-            obtain ⟨hlen, hag⟩ := findMatchLengthWithLimit_sound hf
-            have hco : ∀ score, CopyOK data mask cm curIx maxLength maxBackward
-                { s.out with len := len, distance := i32ToUsize ci, score := score } := fun score =>
-              copyOK_of_backward hc (i32ToUsize_lt ci) (by omega) (by omega) hlen hag s.out score hI.1
-            split at h
-            · split at h
-              · split at h <;>
-                  first
-                  | (injection h with h; subst h; first | exact ⟨hI.1, fun _ => hco _⟩ | exact hI)
-                  | (split at h <;>
-                      (injection h with h; subst h; first | exact ⟨hI.1, fun _ => hco _⟩ | exact hI))
-              · injection h with h; subst h; exact hI
-            · injection h with h; subst h; exact hI
-
-theorem Adv.bucketLoop_inv {lbs : Nat} {data : ByteArray} {mask curIx cm maxLength maxBackward blockMask : Nat}
-    (bucket : Nat → Option Nat) : ∀ (cnt i : Nat) (s s' : Adv.LoopSt),
-    Adv.Inv data mask cm curIx maxLength maxBackward s →
-    Adv.bucketLoop lbs data mask curIx cm maxLength maxBackward blockMask bucket cnt i s = some s' →
-    Adv.Inv data mask cm curIx maxLength maxBackward s' := by
-  intro cnt
-  induction cnt with
-  | zero => intro i s s' hI h; simp only [Adv.bucketLoop, Option.some.injEq] at h; subst h; exact hI
-  | succ cnt ih =>
-    intro i s s' hI h
-    simp only [Adv.bucketLoop] at h
-    cases hb : bucket ((i - 1) &&& blockMask) with
-    | none => simp [hb] at h
-    | some prev =>
-      simp only [hb] at h
-      split at h
-      · exact ih _ _ _ hI h
-      · rename_i h0
-        cases hg : Adv.guard data mask cm (prev &&& mask) s.bestLen with
-        | none => simp [hg] at h
-        | some g =>
-          cases g with
-          | true =>
-            simp only [hg] at h
-            split at h
-            · injection h with h; subst h; exact hI
-            · exact ih _ _ _ hI h
-          | false =>
-            simp only [hg] at h
-            split at h
-            · injection h with h; subst h; exact hI
-            · rename_i hmb
-              cases hf : findMatchLengthWithLimitMin4 data (prev &&& mask) cm maxLength with
-              | none => simp [hf] at h
-              | some len =>
-                simp only [hf] at h
-                obtain ⟨hlen, hag⟩ := min4_sound hf
-                refine ih _ _ _ ?_ h
-                split
-                · split
-                  · exact ⟨hI.1, fun _ => copyOK_of_prev h0 hmb hlen hag s.out _ hI.1⟩
-                  · exact hI
-                · exact hI
 
 end BV.MatchFinder
